@@ -29,7 +29,7 @@ ASSUMPTIONS = [
 
 WS = "\n\r\t "
 FUEL = 20000
-KF_GLR = "KF-C11-glr-recovery-heads-diverge"
+KF_GLR = "KF-C11-glr-recovery-disambiguation-crash"
 
 # (name, text, samples for regex terminals, junk characters, delimiter for the skip strategy)
 RICH = [
@@ -61,8 +61,15 @@ RICH = [
      {}, "x", ";"),
 ]
 
-LAYOUT_RULE = ("\nLAYOUT: LayoutItem | LAYOUT LayoutItem | EMPTY;\nLayoutItem: WS | Comment;\n"
-               "terminals\nWS: /\\s+/;\nComment: /\\/\\/[^\\n]*/;")
+LAYOUT_RULES = "\nLAYOUT: LayoutItem | LAYOUT LayoutItem | EMPTY;\nLayoutItem: WS | Comment;\n"
+LAYOUT_TERMS = "WS: /\\s+/;\nComment: /\\/\\/[^\\n]*/;"
+
+
+def with_layout(text):
+    if "\nterminals\n" in text:
+        rules, terms = text.split("\nterminals\n", 1)
+        return rules + LAYOUT_RULES + "terminals\n" + terms + "\n" + LAYOUT_TERMS
+    return text + LAYOUT_RULES + "terminals\n" + LAYOUT_TERMS
 
 COMBOS = [
     # (prefer_shifts, prefer_shifts_over_empty, tables (1 = LALR, 0 = SLR), consume_input)
@@ -191,12 +198,12 @@ def _spans(errors):
     return [[e.location.start_position, e.location.end_position] for e in errors]
 
 
-def _lr_parse(parglare, impl, gi, p, w, state=None):
+def _lr_parse(parglare, impl, gi, p, w, state=None, limit=4):
     if state is not None:
         state.clear()
     r = {}
     try:
-        with impl.time_limit(10):
+        with impl.time_limit(limit):
             t = p.parse(w)
         r["kind"] = "ok"
         r["tree"] = impl.node_sx(t, gi)
@@ -216,12 +223,12 @@ def _lr_parse(parglare, impl, gi, p, w, state=None):
     return r
 
 
-def _glr_parse(parglare, impl, gi, p, w, state=None, ntrees=8):
+def _glr_parse(parglare, impl, gi, p, w, state=None, ntrees=8, limit=4):
     if state is not None:
         state.clear()
     r = {}
     try:
-        with impl.time_limit(10):
+        with impl.time_limit(limit):
             f = p.parse(w)
         r["kind"] = "forest"
         r["errors"] = _spans(p.errors)
@@ -242,6 +249,9 @@ def _glr_parse(parglare, impl, gi, p, w, state=None, ntrees=8):
         r["end"] = e.location.end_position
     except BaseException as e:  # noqa
         r["kind"] = "exc:" + impl.exc_kind(e)
+        r["msg"] = str(e)[:200]
+        import traceback
+        r["frames"] = [f.name for f in traceback.extract_tb(e.__traceback__)][-8:]
     return r
 
 
@@ -293,7 +303,7 @@ def _worker(job):
                   consume_input=consume)
         inj_state = {}
         try:
-            with impl.time_limit(30), impl.quiet():
+            with impl.time_limit(6), impl.quiet():
                 p0 = Parser(g, **kw)
                 pr = Parser(g, error_recovery=True, **kw)
                 pskip = Parser(g, error_recovery=make_skip(delim), **kw)
@@ -306,19 +316,30 @@ def _worker(job):
         c["table"] = impl.dump_table(pr.table, gi)
         if pr.layout_parser is not None:
             c["layout_table"] = impl.dump_table(pr.layout_parser.table, gi)
+        ntimeouts = 0
         for w in inputs:
+            if ntimeouts >= 2:          # a driver that loops on this table: two witnesses are enough
+                c["cut_short"] = True
+                break
+            plain = _lr_parse(parglare, impl, gi, p0, w, limit=3)
+            lim = 1 if plain["kind"] == "exc:Timeout" else 3
+            dflt = _lr_parse(parglare, impl, gi, pr, w, limit=lim)
+            if dflt["kind"] == "exc:Timeout":
+                lim = 1
             c["results"][w] = {
-                "plain": _lr_parse(parglare, impl, gi, p0, w),
-                "default": _lr_parse(parglare, impl, gi, pr, w),
-                "skip": _lr_parse(parglare, impl, gi, pskip, w),
-                "inject": _lr_parse(parglare, impl, gi, pinj, w, inj_state),
+                "plain": plain,
+                "default": dflt,
+                "skip": _lr_parse(parglare, impl, gi, pskip, w, limit=lim),
+                "inject": _lr_parse(parglare, impl, gi, pinj, w, inj_state, limit=lim),
             }
+            if any(x["kind"] == "exc:Timeout" for x in c["results"][w].values()):
+                ntimeouts += 1
         out["combos"].append(c)
     # ---- GLR
     gl = {"results": {}}
     inj_state = {}
     try:
-        with impl.time_limit(30), impl.quiet():
+        with impl.time_limit(6), impl.quiet():
             g0 = GLRParser(g)
             gr = GLRParser(g, error_recovery=True)
             gskip = GLRParser(g, error_recovery=make_skip(delim))
@@ -326,14 +347,22 @@ def _worker(job):
         gl["outcome"] = "ok"
     except BaseException as e:  # noqa
         gl["outcome"] = impl.exc_kind(e)
+    gtimeouts = 0
     if gl["outcome"] == "ok":
         for w in inputs:
+            if gtimeouts >= 2:
+                gl["cut_short"] = True
+                break
+            plain = _glr_parse(parglare, impl, gi, g0, w)
+            lim = 1 if plain["kind"] == "exc:Timeout" else 4
             gl["results"][w] = {
-                "plain": _glr_parse(parglare, impl, gi, g0, w),
-                "default": _glr_parse(parglare, impl, gi, gr, w),
-                "skip": _glr_parse(parglare, impl, gi, gskip, w),
-                "inject": _glr_parse(parglare, impl, gi, ginj, w, inj_state),
+                "plain": plain,
+                "default": _glr_parse(parglare, impl, gi, gr, w, limit=lim),
+                "skip": _glr_parse(parglare, impl, gi, gskip, w, limit=lim),
+                "inject": _glr_parse(parglare, impl, gi, ginj, w, inj_state, limit=lim),
             }
+            if any(x["kind"] == "exc:Timeout" for x in gl["results"][w].values()):
+                gtimeouts += 1
     out["glr"] = gl
     return out
 
@@ -353,7 +382,7 @@ def gen_jobs(ctx):
     for name, text, samples, junk, delim in RICH:
         alpha = sorted(set(gramgen.alphabet_of(text)) | set("".join(v for vs in samples.values() for v in vs)))
         alpha = [a for a in alpha if a.strip()] or ["a"]
-        reps = 2 if quick else 12
+        reps = 5 if quick else 40
         for k in range(reps):
             short = [s for s in gramgen.all_strings(alpha[:3] + [junk[0], " "], 2 if quick else 3)] if k == 0 else []
             jobs.append(("%s#%d" % (name, k), text,
@@ -361,7 +390,7 @@ def gen_jobs(ctx):
                           "samples": samples, "nsent": 10 if quick else 24, "ncorrupt": 3, "combos": COMBOS,
                           "fillers": ["", " ", " ", "\n "]}, rng.randrange(1 << 30)))
         if name in ("stmts", "list", "block"):
-            jobs.append((name + "+L", text + LAYOUT_RULE,
+            jobs.append((name + "+L", with_layout(text),
                          {"inputs": [], "alphabet": "".join(alpha), "junk": junk + "/", "delim": delim,
                           "samples": samples, "nsent": 8 if quick else 40, "ncorrupt": 3,
                           "combos": COMBOS[:2], "fillers": [" ", " //c\n", "", " //x;\n "]},
@@ -370,7 +399,7 @@ def gen_jobs(ctx):
         alpha = gramgen.alphabet_of(text)
         ml = (3 if quick else 4) if len(alpha) >= 3 else (4 if quick else 5)
         base = list(gramgen.all_strings(alpha + ["x"], ml))
-        cap = 60 if quick else 500
+        cap = 90 if quick else 600
         if len(base) > cap:
             rng.shuffle(base)
             base = base[:cap]
@@ -378,7 +407,7 @@ def gen_jobs(ctx):
         jobs.append((name, text, {"inputs": base, "alphabet": "".join(alpha), "junk": "x", "delim": alpha[0],
                                   "nsent": 4 if quick else 12, "ncorrupt": 3, "combos": COMBOS[:3]},
                      rng.randrange(1 << 30)))
-    nrand = 60 if quick else 900
+    nrand = 160 if quick else 2500
     for i in range(nrand):
         big = i % 3 == 0
         r = gramgen.random_grammar(rng, max_nt=4 if big else 3, max_alts=3, max_rhs=3,
@@ -438,9 +467,14 @@ def leaves_are_tokens(leaves, rx, n, zero_ok=False):
 
 
 def run(ctx):
+    import time
+    t0 = time.time()
+    replay_known(ctx)
     jobs = gen_jobs(ctx)
     with mp.Pool(common.NPROC) as pool:
         results = pool.map(_worker, jobs, chunksize=1)
+    ctx.notes.append("impl phase: %.1f s for %d jobs" % (time.time() - t0, len(jobs)))
+    t0 = time.time()
     st = {"grammars": 0, "grammar_errors": {}, "lr_combos": 0, "lr_construct": {}, "inputs": 0,
           "lr_runs": 0, "lr_by_strategy": {}, "lr_kinds": {}, "lr_recovered_results": 0, "lr_errors_recorded": 0,
           "lr_multi_error_results": 0, "lr_failed_recoveries": 0, "lr_sentences": 0, "model_compared": 0,
@@ -502,6 +536,7 @@ def run(ctx):
                             res["_cover"] = add(112, [r["grammar"], res["nodes"], pin[0], pin[1], wsl, start, 0, 1, 0,
                                                       res["errors"], 0, 0], None)
     outs = common.model_run(mcases)
+    ctx.notes.append("model phase: %.1f s for %d model cases" % (time.time() - t0, len(mcases)))
     nx, xok, xlog = common.coq_crosscheck("C11", mcases, outs, ctx.rng, sample=40 if ctx.quick() else 150)
     if not xok:
         ctx.violation("extraction cross-check failed: OCaml driver and vm_compute disagree",
@@ -537,8 +572,17 @@ def run(ctx):
                                                                                   if not x.startswith("_")}}
                     # ---- property oracle on the impl's behaviour
                     if k == "exc:Timeout":
-                        ctx.violation("Parser.parse with error recovery (%s) did not terminate within 10 s" % sname,
-                                      rep, key="lr-timeout-" + sname)
+                        # C11_terminates_rel: the number of recoveries is bounded, so a model run that
+                        # exhausts its fuel is an error-free LR segment that does not end (the driver
+                        # looping on empty reductions: C04's subject, the parser without recovery
+                        # loops as well); anything else is non-termination caused by recovery
+                        o = outs[res4["_m"][sname]]
+                        if o[0] == 3:
+                            st["lr_segment_diverges"] = st.get("lr_segment_diverges", 0) + 1
+                        else:
+                            ctx.violation("Parser.parse with error recovery (%s) did not terminate within the "
+                                          "time limit (model result tag %d, parser without recovery: %s)"
+                                          % (sname, o[0], plain["kind"]), rep, key="lr-timeout-" + sname)
                         continue
                     if k.startswith("exc:"):
                         ctx.violation("Parser.parse with error recovery (%s) raised %s (only SyntaxError is allowed)"
@@ -631,7 +675,8 @@ def run(ctx):
                 # the model without recovery vs the impl without recovery (same table, same input)
                 o = outs[res4["_mplain"]]
                 pk = plain["kind"]
-                okp = (pk == "ok" and o[0] == 0 and o[1] == plain["tree"]) or \
+                okp = (pk == "exc:Timeout" and o[0] == 3) or \
+                      (pk == "ok" and o[0] == 0 and o[1] == plain["tree"]) or \
                       (pk == "SyntaxError" and o[0] in (1, 4) and o[1] == plain["pos"]) or \
                       (pk == "DisambiguationError" and o[0] == 2 and o[1] == plain["pos"])
                 if not okp:
@@ -656,11 +701,21 @@ def run(ctx):
                 rep = {"grammar": r["gtext"], "input": w, "parser": "GLRParser", "strategy": sname,
                        "delimiter": r["delim"],
                        "impl": {x: y for x, y in res.items() if not x.startswith("_") and x != "nodes"}}
+                if k == "exc:Timeout" and plain["kind"] == "exc:Timeout":
+                    st["glr_plain_timeouts"] = st.get("glr_plain_timeouts", 0) + 1
+                    continue
                 if k == "exc:Timeout":
-                    ctx.violation("GLRParser.parse with error recovery (%s) did not terminate within 10 s" % sname,
+                    ctx.violation("GLRParser.parse with error recovery (%s) did not terminate within the time limit" % sname,
                                   rep, key="glr-timeout-" + sname)
                     continue
                 if k.startswith("exc:"):
+                    if is_kf_glr(ctx, res):
+                        st["glr_kf_instances"] = st.get("glr_kf_instances", 0) + 1
+                        ctx.known_finding(KF_GLR, "GLRParser(error_recovery=...).parse raises AttributeError instead "
+                                          "of recovering or raising SyntaxError when the default recovery scan "
+                                          "finds two tokens at one position; first seen: grammar %r input %r"
+                                          % (r["gtext"], w))
+                        continue
                     ctx.violation("GLRParser.parse with error recovery (%s) raised %s" % (sname, k[4:]), rep,
                                   key="glr-exc-%s-%s" % (sname, k))
                     continue
@@ -682,6 +737,11 @@ def run(ctx):
                             st["glr_coverage_holds"] += 1
                         else:
                             st["glr_coverage_fails"] += 1
+                            st.setdefault("glr_coverage_fail_samples", [])
+                            if len(st["glr_coverage_fail_samples"]) < 3:
+                                st["glr_coverage_fail_samples"].append(
+                                    {"grammar": r["gtext"], "input": w, "errors": spans,
+                                     "trees": res.get("trees", [])[:2]})
                     if bad_spans or bad_tree:
                         glr_kf_cases.append((r, w, sname, res, rep, bad_spans, bad_tree))
                     if plain["kind"] == "forest":
@@ -722,17 +782,51 @@ def run(ctx):
     return cov
 
 
+def is_kf_glr(ctx, res):
+    """identification rule of KF-C11-glr-recovery-disambiguation-crash: the exception is the
+    AttributeError raised while Parser._next_token builds a DisambiguationError from a GSSNode,
+    reached from default_error_recovery"""
+    if not any(e["id"] == KF_GLR for e in ctx.kf):
+        return False
+    fr = res.get("frames", [])
+    return (res.get("kind") == "exc:AttributeError"
+            and "'GSSNode' object has no attribute 'start_position'" in res.get("msg", "")
+            and "default_error_recovery" in fr and "_next_token" in fr
+            and fr.index("default_error_recovery") < fr.index("_next_token"))
+
+
 def handle_glr_failures(ctx, st, cases):
-    """GLR failures of the span/tree oracle.  Instances of the listed finding are those where the
-    heads of one recovery resumed at different positions (the mechanism); everything else is a
-    violation."""
-    kf = [e for e in ctx.kf if e["id"] == KF_GLR]
+    """GLR failures of the span/tree oracle: always violations."""
     for (r, w, sname, res, rep, bad_spans, bad_tree) in cases:
         what = ("GLR with recovery (%s): " % sname) + \
                ("reported spans %r not ordered/disjoint/in bounds" % res["errors"] if bad_spans else
                 "a tree of the forest is not a derivation whose leaves are tokens of the input in order")
         ctx.violation(what, rep, key="glr-%s-%s" % ("spans" if bad_spans else "tree", sname))
-    return kf
+
+
+def replay_known(ctx):
+    """known findings are replayed first: a listed witness that still fails as recorded is
+    reported as KNOWN-FINDING, one that fails differently is a violation"""
+    for e in ctx.kf:
+        if e["id"] != KF_GLR:
+            continue
+        for wit in e.get("witnesses", []):
+            spec = {"inputs": [wit["input"]], "alphabet": "ab", "junk": "x", "delim": ";", "combos": []}
+            r = _worker(("kf-witness", wit["grammar"], spec, 0))
+            res = (r.get("glr") or {}).get("results", {}).get(wit["input"], {}).get("default")
+            if res is None:
+                ctx.violation("known-finding witness could not be replayed", {"witness": wit}, no_input=True)
+            elif is_kf_glr(ctx, res):
+                ctx.known_finding(KF_GLR, "GLRParser(error_recovery=True).parse raises AttributeError instead of "
+                                  "recovering or raising SyntaxError when the default recovery scan finds two "
+                                  "tokens at one position; witness: grammar %r input %r"
+                                  % (wit["grammar"], wit["input"]))
+            elif res["kind"].startswith("exc:"):
+                ctx.violation("known-finding witness now fails differently: %s" % res["kind"],
+                              {"grammar": wit["grammar"], "input": wit["input"], "impl": res},
+                              key="kf-witness-changed")
+            else:
+                ctx.notes.append("known finding %s: witness %r no longer fails (fixed?)" % (KF_GLR, wit["input"]))
 
 
 def replay(ctx, rep):
